@@ -140,8 +140,9 @@ class H(explore.Harness):
         futs = tuple((f._event.is_set(), type(f._final_exception).__name__, f._query_retries,
                       f._connection.vid if f._connection is not None else None) for f in st.futures)
         up = tuple(h.up for h in st.srv.hosts)
+        late = tuple((f._event.is_set(), type(f._final_exception).__name__) for f in st.after)
         return (trk.kind, trk.phase, cl.is_shutdown, se.is_shutdown, conns, pools, hosts, ccs, tasks, sched, timers,
-                pend, futs, up, st.n_exec, len(st.exec_errors))
+                pend, futs, late, up, st.n_exec, len(st.exec_errors))
 
     # -- monitors
     def check(self, st, part, hist):
@@ -334,7 +335,6 @@ def _s_subtree(args):
         if cap is not None and n >= cap:
             capped = True
             part.count('S_subtrees_capped')
-            part.cap('c45-S-%s-%s: subtree below %r cut at %d executions (bound %d)' % (params['scenario'], params['kind'], prefix[-3:], cap, bound))
             break
         pre = stack.pop()
         s = s_harness(params, pre, part)
@@ -362,15 +362,25 @@ def run_s(ctx):
     jobs = ctx.rotate(jobs)
     # big subtrees first would need their size; a fine-grained chunking balances well enough
     results = ctx.pmap(_s_subtree, [j for _, j in jobs], chunksize=max(1, len(jobs) // (ctx.nproc * 16)))
+    s_samples = []
     for (name, _), (part, n, maxpts, capped) in zip(jobs, results):
         ctx.merge(part)
+        if len(s_samples) < 2 and part.samples and part.samples[0].get('state_at_shutdown'):
+            s_samples.append(part.samples[0])
         info[name]['executions'] += n
         info[name]['max_choice_points'] = max(info[name]['max_choice_points'], maxpts)
+        info[name]['subtrees'] = info[name].get('subtrees', 0) + 1
         if capped:
             info[name]['complete'] = False
+            info[name]['subtrees_cut'] = info[name].get('subtrees_cut', 0) + 1
     for name, d in info.items():
         ctx.cov.setdefault('harnesses', {})[name] = d
+        if not d['complete']:
+            ctx.cap('%s: %d of the %d subtrees below a first deviation were cut at %d executions each (depth-first, preemption bound %d); '
+                    'the default schedule and every single deviation from it were run' % (
+                        name, d['subtrees_cut'], d['subtrees'], d['subtree_cap'], d['preemption_bound']))
     ctx.count('states', ctx.counters.get('S_executions', 0))
+    return s_samples
 
 
 def run(ctx):
@@ -380,7 +390,9 @@ def run(ctx):
         explore.bfs(ctx, H, params, max_depth=depth, label='c45-E-' + name, max_states=400000)
     explore.close_pool()
     t_e = ctx.elapsed()
-    run_s(ctx)
+    s_samples = run_s(ctx)
+    e_samples = [x for x in ctx.samples if isinstance(x, dict) and x.get('state_at_shutdown')] or list(ctx.samples)
+    ctx.cov['samples'] = e_samples[:3] + s_samples
     ctx.cov['wall_s_by_layer'] = {'E': round(t_e, 1), 'S': round(ctx.elapsed() - t_e, 1)}
     c = ctx.counters
     ctx.cov['shutdown_injection_points'] = {
